@@ -26,6 +26,7 @@ ASSUMPTIONS = ["flat tempdir formats whose parent directory exists beforehand, s
                "call creates is one it promised to delete",
                "synchronous scheduler; the sandbox directory is used by nothing else during a run"]
 USE_CONTRACTS = True      # in-situ icontract monitors (vmon/contracts.py)
+SPLIT_KINDS = True         # thorough tier: one shard per geometry kind
 DECIDING_COUNTERS = ["packs_returned", "fs_events"]
 
 RETRY = dict(wait_fixed=1, stop_max_attempt_number=3)
